@@ -682,10 +682,7 @@ fn main() {
     evaluated.fetch_add(n, Ordering::Relaxed);
   }
   // ---- generated ill-typed families: interface conformance, visibility across modules, arity ----
-  let mut gen_cases: Vec<vcore::illtyped::Ill> = vcore::illtyped::conformance();
-  gen_cases.extend(vcore::illtyped::visibility());
-  gen_cases.extend(vcore::illtyped::scope_escape());
-  gen_cases.extend(vcore::illtyped::bounds());
+  let mut gen_cases: Vec<vcore::illtyped::Ill> = vcore::illtyped::all_generated();
   for a in vcore::illtyped::arity() {
     if !a.well_typed {
       gen_cases.push(vcore::illtyped::Ill { kind: "call-arity-or-argument-type", what: a.what, modules: vec![("Main".into(), a.text)], target: "Main".into() });
